@@ -383,7 +383,11 @@ func (w *c06) step(t []string) string {
 		return two(func() string { return itoa(w.frid(f.Move(n))) }, func() string { return itoa(w.srid(s.Move(n))) })
 	case "rlink":
 		f, s := w.fRing(t[1]), w.sRing(t[1])
-		f2, s2 := w.fRing(t[2]), w.sRing(t[2])
+		var f2 *lists.Ring[int]
+		var s2 *stdring.Ring
+		if atoi(t[2]) != -1 { // -1: a nil argument
+			f2, s2 = w.fRing(t[2]), w.sRing(t[2])
+		}
 		return two(func() string { return itoa(w.frid(f.Link(f2))) }, func() string { return itoa(w.srid(s.Link(s2))) })
 	case "runlink":
 		f, s, n := w.fRing(t[1]), w.sRing(t[1]), atoi(t[2])
